@@ -184,6 +184,10 @@ def witnesses(tier="quick", seed=0):
     # ---------------------------------------------------------------- tag on a struct
     add("tag_on_struct", "tag on a struct", "container", item("struct", [['tag = "t"']]), item("struct", []))
     add("tag_on_struct_two", "tag on a struct", "container", item("struct", [["error = JsonError"], ['tag = "t"']]), item("struct", [["error = JsonError"]]))
+    add("tag_on_struct_with_from", "tag on a struct", "container",
+        item("struct", [["error = JsonError"], [cf, 'tag = "t"']]), item("struct", [["error = JsonError"], [cf]]))
+    add("tag_on_struct_with_from_two", "tag on a struct", "container",
+        item("struct", [["error = JsonError"], ['tag = "t"'], [cf]]), item("struct", [["error = JsonError"], [cf]]))
     # ---------------------------------------------------------------- container try_from with rename_all / tag / deny_unknown_fields
     for other, kind in (("rename_all = camelCase", "struct"), ("deny_unknown_fields", "struct"), ('tag = "t"', "tagged"), ("rename_all = lowercase", "unit")):
         for place in ("same", "two"):
